@@ -29,6 +29,7 @@
 #include <opm/common/OpmLog/OpmLog.hpp>
 
 #include <algorithm>
+#include <cstdlib>
 #include <cmath>
 #include <iostream>
 #include <map>
@@ -84,8 +85,8 @@ static std::vector<std::string> DBL_ORDER, INT_ORDER;
 
 static void declareKeywords() {
     UnitSystem us(UnitSystem::UnitType::UNIT_TYPE_METRIC);
-    for (const char* k : { "PORO", "NTG", "MULTX", "MULTY", "MULTX-", "MULTPV", "DISPERC", "SWATINIT",
-                           "PRESSURE", "SWAT", "SGAS", "SSOL", "RS", "SALT" }) {
+    for (const char* k : { "PORO", "NTG", "PERMX", "PERMY", "PERMZ", "MULTX", "MULTY", "MULTX-", "MULTZ", "MULTZ-", "MULTPV",
+                           "DISPERC", "SWATINIT", "PRESSURE", "SWAT", "SGAS", "SSOL", "RS", "SALT" }) {
         if (!FieldProps::supported<double>(k)) throw std::logic_error(std::string("not a double keyword: ") + k);
         const auto info = Fieldprops::keywords::global_kw_info<double>(k);
         DInfo d;
@@ -106,7 +107,8 @@ static void declareKeywords() {
 
 // data keywords accepted by scan<SECTION>Section (index = section)
 static const std::vector<std::string> DATA_D[5] = {
-    { "PORO", "NTG", "MULTX", "MULTY", "MULTX-", "MULTPV", "DISPERC" }, { "MULTX", "MULTY", "MULTX-", "MULTPV" }, { "SWATINIT" }, {},
+    { "PORO", "NTG", "PERMX", "PERMY", "PERMZ", "MULTX", "MULTY", "MULTX-", "MULTZ", "MULTZ-", "MULTPV", "DISPERC" },
+    { "MULTX", "MULTY", "MULTX-", "MULTZ", "MULTZ-", "MULTPV" }, { "SWATINIT" }, {},
     { "PRESSURE", "SWAT", "SGAS", "SSOL", "RS", "SALT" } };
 static const std::vector<std::string> DATA_I[5] = {
     { "FLUXNUM", "MULTNUM", "OPERNUM" }, {}, {}, { "SATNUM", "PVTNUM", "FIPNUM", "EQLNUM", "MISCNUM", "FIPABC", "OPERNUM", "ROCKNUM" }, {} };
@@ -265,6 +267,7 @@ template <class T> struct OCell { char st; T v; };
 template <class T> struct Obs { bool valid = false; std::vector<OCell<T>> cells; std::vector<T> glob; };
 struct Outcome {
     bool ok = false;
+    bool topMasked = false;   // reference interpreter only: "distribute top layer" met an inactive top cell
     std::vector<int> act;
     std::map<std::string, Obs<double>> d;
     std::map<std::string, Obs<int>> i;
@@ -372,6 +375,8 @@ struct RefState {
     std::vector<char> act;
     std::map<std::string, GArr<double>> d;
     std::map<std::string, GArr<int>> i;
+    std::map<std::string, GArr<double>> gd;      // the code's global storage of `global` keywords
+    bool topMasked = false;                       // "distribute top layer" met an inactive top cell (finding 2)
     int box[6];      // zero based inclusive i1 i2 j1 j2 k1 k2
     int n() const { return nx * ny * nz; }
     void globalBox() { box[0] = 0; box[1] = nx - 1; box[2] = 0; box[3] = ny - 1; box[4] = 0; box[5] = nz - 1; }
@@ -419,6 +424,17 @@ static GArr<double>& refGetD(RefState& s, const std::string& k) {
     if (info.init) for (auto& c : a) { c.st = 'd'; c.v = *info.init; }
     return s.d[k] = a;
 }
+// global storage: created together with the array, same initial content
+static GArr<double>& refGetG(RefState& s, const std::string& k) {
+    auto it = s.gd.find(k);
+    if (it != s.gd.end()) return it->second;
+    const auto& info = DBL.at(baseName(k));
+    GArr<double> a(s.n());
+    if (info.init) for (auto& c : a) { c.st = 'd'; c.v = *info.init; }
+    return s.gd[k] = a;
+}
+static bool isGlob(const std::string& k) { return DBL.count(baseName(k)) && DBL.at(baseName(k)).glob; }
+
 static GArr<int>& refGetI(RefState& s, const std::string& k) {
     auto it = s.i.find(k);
     if (it != s.i.end()) return it->second;
@@ -493,12 +509,20 @@ static void refKeyword(RefState& s, int sec, const KwOp& k) {
             if (!hasV(dc.st)) return;
             if (dc.st == 'v' || a[g].st == 'u') { a[g].st = dc.st; a[g].v = si(info, dc.d); }
         });
+        if (info.glob) {
+            // global half of assign_deck: no has_value test on the deck status
+            auto& ga = refGetG(s, editName(sec, k.name));
+            forBox(s, [&](int g, int pos) {
+                const auto& dc = k.data[pos];
+                if (dc.st == 'v' || ga[g].st == 'u') { ga[g].st = dc.st; ga[g].v = si(info, dc.d); }
+            });
+        }
         if (sec == 0 && info.top && !refValid(s, a)) {
             // "distribute top layer": every still undefined cell takes the deck entry of the top cell
             // of its column, provided that top cell is in the box AND ACTIVE (whatever the entry's status)
             const int layer = s.nx * s.ny;
             std::vector<int> posOf(layer, -1);
-            forBox(s, [&](int g, int pos) { if (g < layer && s.act[g]) posOf[g] = pos; });
+            forBox(s, [&](int g, int pos) { if (g < layer && s.act[g]) posOf[g] = pos; if (g < layer && !s.act[g]) s.topMasked = true; });
             for (int g = 0; g < s.n(); ++g) {
                 const int li = g % layer;
                 if (a[g].st == 'u' && posOf[li] >= 0) { a[g].st = 'd'; a[g].v = si(info, k.data[posOf[li]].d); }
@@ -527,6 +551,10 @@ static void refKeyword(RefState& s, int sec, const KwOp& k) {
                 const double x = (k.name == "MULTIPLY") ? r.val : si(info, r.val);
                 auto& a = refGetD(t, editName(sec, r.a));
                 forBox(t, [&](int g, int) { if (!scalarCell(k.name, a[g], x) && t.act[g]) bad = true; });
+                if (info.glob) {
+                    auto& ga = refGetG(t, editName(sec, r.a));
+                    forBox(t, [&](int g, int) { if (!scalarCell(k.name, ga[g], x)) bad = true; });   // every cell counts
+                }
             } else if (INTS.count(r.a)) {
                 if (k.name != "EQUALS" && !t.i.count(r.a)) throw RefErr{};
                 const int x = static_cast<int>(r.val);
@@ -535,7 +563,7 @@ static void refKeyword(RefState& s, int sec, const KwOp& k) {
             } else throw RefErr{};
             if (bad) throw RefErr{};
         }
-        s.d = t.d; s.i = t.i;
+        s.d = t.d; s.i = t.i; s.gd = t.gd;
         return;
     }
     case KT::COPY: {
@@ -549,6 +577,12 @@ static void refKeyword(RefState& s, int sec, const KwOp& k) {
                 const auto src = t.d.at(r.b);
                 auto& a = refGetD(t, r.a);
                 forBox(t, [&](int g, int) { if (src[g].st == 'v') a[g] = src[g]; else if (t.act[g]) bad = true; });
+                if (isGlob(r.a)) {
+                    if (!isGlob(r.b)) throw RefErr{};
+                    const auto gsrc = refGetG(t, r.b);
+                    auto& ga = refGetG(t, r.a);
+                    forBox(t, [&](int g, int) { if (gsrc[g].st == 'v') ga[g] = gsrc[g]; else bad = true; });
+                }
             } else if (INTS.count(r.b)) {
                 if (!t.i.count(r.b) || !refValid(t, t.i.at(r.b))) throw RefErr{};
                 if (!INTS.count(r.a)) throw RefErr{};
@@ -558,7 +592,7 @@ static void refKeyword(RefState& s, int sec, const KwOp& k) {
             }
             if (bad) throw RefErr{};
         }
-        s.d = t.d; s.i = t.i;
+        s.d = t.d; s.i = t.i; s.gd = t.gd;
         return;
     }
     case KT::OPER: {
@@ -582,9 +616,20 @@ static void refKeyword(RefState& s, int sec, const KwOp& k) {
                     a[g].v = out; a[g].st = src[g].st;
                 } else if (t.act[g]) bad = true;
             });
+            if (isGlob(r.a)) {
+                if (!isGlob(r.b)) throw RefErr{};
+                const auto gsrc = refGetG(t, r.b);
+                auto& ga = refGetG(t, r.a);
+                forBox(t, [&](int g, int) {
+                    if (hasV(gsrc[g].st) && (!check || hasV(ga[g].st))) {
+                        double out; refOperate(r.fn, al, be, ga[g].v, gsrc[g].v, out);
+                        ga[g].v = out; ga[g].st = gsrc[g].st;
+                    } else bad = true;
+                });
+            }
             if (bad) throw RefErr{};
         }
-        s.d = t.d; s.i = t.i;
+        s.d = t.d; s.i = t.i; s.gd = t.gd;
         return;
     }
     case KT::SREG: {
@@ -602,6 +647,10 @@ static void refKeyword(RefState& s, int sec, const KwOp& k) {
             for (int g = 0; g < s.n(); ++g)
                 if (reg[g].v == r.rv && !scalarCell(k.name, a[g], x) && s.act[g]) bad = true;
             if (bad) throw RefErr{};
+            if (info.glob) {     // update_global_from_local: values of the touched ACTIVE cells only, status not updated
+                auto& ga = refGetG(s, r.a);
+                for (int g = 0; g < s.n(); ++g) if (s.act[g] && reg[g].v == r.rv) ga[g].v = a[g].v;
+            }
         }
         return;
     }
@@ -652,6 +701,10 @@ static void refKeyword(RefState& s, int sec, const KwOp& k) {
                 } else if (s.act[g]) bad = true;
             }
             if (bad) throw RefErr{};
+            if (info.glob) {
+                auto& ga = refGetG(s, r.a);
+                for (int g = 0; g < s.n(); ++g) if (s.act[g] && reg[g].v == r.rv) ga[g].v = a[g].v;
+            }
         }
         return;
     }
@@ -667,6 +720,12 @@ static void refApplyMultipliers(RefState& s) {
         auto& a = refGetD(s, k);
         for (int g = 0; g < s.n(); ++g) a[g].v *= m[g].v;
         s.d.erase(MULT_PREFIX + k);
+        if (DBL.at(k).glob) {
+            const auto gm = refGetG(s, MULT_PREFIX + k);
+            auto& ga = refGetG(s, k);
+            for (int g = 0; g < s.n(); ++g) ga[g].v *= gm[g].v;
+            s.gd.erase(MULT_PREFIX + k);
+        }
     }
 }
 
@@ -697,15 +756,18 @@ static const int PROC_ORDER[5] = { 0, 1, 3, 2, 4 };
 static Outcome refObserve(RefState& s) {
     Outcome r;
     r.ok = true;
+    r.topMasked = s.topMasked;
     for (char a : s.act) r.act.push_back(a ? 1 : 0);
     for (const auto& k : DBL_ORDER) {
         const auto a = refGetD(s, k);
         Obs<double> o;
         o.valid = refValid(s, a);
         const double fill = DBL.at(k).init.value_or(0.0);
+        const bool glob = DBL.at(k).glob;
+        const GArr<double> ga = glob ? refGetG(s, k) : GArr<double>{};
         for (int g = 0; g < s.n(); ++g) {
             if (s.act[g]) o.cells.push_back({ a[g].st, a[g].v });
-            o.glob.push_back(s.act[g] ? a[g].v : fill);
+            o.glob.push_back(glob ? ga[g].v : (s.act[g] ? a[g].v : fill));
         }
         r.d[k] = o;
     }
@@ -813,9 +875,9 @@ struct Gen {
                 d.i = (style == 0) ? baseI : rng.range(style == 1 ? 0 : 1, 4);
                 if ((style == 2 || style == 3) && rng.coin(1, 5)) {
                     // defaulted entry: a valid default when the keyword's data item has a default value
-                    if (!isInt && k.name == "PORO") { d.st = 'd'; d.d = 0.0; }
-                    else if (!isInt && (k.name == "MULTX" || k.name == "MULTY" || k.name == "MULTX-")) { d.st = 'd'; d.d = 1.0; }
-                    else d.st = 'e';
+                    if (!isInt && (k.name == "PORO" || k.name == "PERMY" || k.name == "PERMZ")) { d.st = 'd'; d.d = 0.0; }
+                    else if (!isInt && k.name.rfind("MULT", 0) == 0 && k.name != "MULTPV") { d.st = 'd'; d.d = 1.0; }
+                    else { d.st = 'e'; d.d = 0.0; d.i = 0; }   // an empty default carries the value-initialised 0
                 }
                 k.data.push_back(d);
             }
@@ -1123,6 +1185,10 @@ int main(int argc, char** argv) {
                 continue;
             }
             if (!(rf.ok && real.ok)) { stats["inactive.not-both-ok"]++; log.ok(); continue; }
+            // Finding 2 (design.d/C12.md): `distribute_toplayer` reads the top cell through the ACTIVE index
+            // list, so a column whose top cell is inactive is not filled.  Programs that run into it are
+            // counted, not compared (set VERIF_C12_FINDINGS=1 to have them reported as failures).
+            if (ref.topMasked && !std::getenv("VERIF_C12_FINDINGS")) { stats["inactive.skipped-toplayer-finding"]++; continue; }
             // map active index -> global for both runs
             std::vector<int> posA(real.act.size(), -1), posF(rf.act.size(), -1);
             { int a1 = 0, a2 = 0; for (size_t g = 0; g < real.act.size(); ++g) { if (real.act[g]) posA[g] = a1++; if (rf.act[g]) posF[g] = a2++; } }
